@@ -43,6 +43,16 @@ def erase (m : AMap V) (k : Id) : AMap V := m.filter fun p => decide (p.1 ≠ k)
 
 def keys (m : AMap V) : List Id := m.map (·.1)
 
+/-- `for id, v := range m { if !keep id v { delete(m, id) } }`; the record is read through the
+    map, so a list that repeats a key behaves like the Go map it denotes -/
+def visKeep (keep : Id → V → Bool) (m : AMap V) (k : Id) : Bool :=
+  match m.get? k with
+  | some v => keep k v
+  | none => false
+
+def filterVis (keep : Id → V → Bool) (m : AMap V) : AMap V :=
+  m.filter fun p => visKeep keep m p.1
+
 /-- `for id, v := range m { m[id] = f id v }` -/
 def mapVals (f : Id → V → V) (m : AMap V) : AMap V := m.map fun p => (p.1, f p.1 p.2)
 
@@ -156,7 +166,7 @@ def Cat.register (c : Cat) (r : RegReq) : Option Cat :=
 def Cat.deregSvc (c : Cat) (id : Id) : Cat :=
   match c.svcs.get? id with
   | none => c
-  | some _ => { c with svcs := c.svcs.erase id, chks := c.chks.filter fun p => decide (p.2.sid ≠ id) }
+  | some _ => { c with svcs := c.svcs.erase id, chks := c.chks.filterVis fun _ d => decide (d.sid ≠ id) }
 
 def Cat.deregChk (c : Cat) (k : Id) : Cat := { c with chks := c.chks.erase k }
 
@@ -317,12 +327,14 @@ def effTok (cfg : Cfg) (tok : String) (isLocal : Bool) : String :=
   else if isLocal ∧ cfg.cfgTok ≠ "" then cfg.cfgTok
   else cfg.userTok
 
+/-- does the record of check `k` ride on the registration of service `sid` (token `st`)? -/
+def piggyOf (cfg : Cfg) (sid : Id) (st : String) (k : Id) : Option (Ent ChkDef) → Option (Id × ChkDef)
+  | some (.ent d tok loc false false) => if d.sid = sid ∧ effTok cfg tok loc = st then some (k, d) else none
+  | _ => none
+
 /-- the out-of-sync checks of service `sid` that ride on its registration (same token only) -/
 def piggy (cfg : Cfg) (l : Local) (sid : Id) (st : String) : List (Id × ChkDef) :=
-  l.chks.filterMap fun p =>
-    match p.2 with
-    | .ent d tok loc false false => if d.sid = sid ∧ effTok cfg tok loc = st then some (p.1, d) else none
-    | _ => none
+  l.chks.filterMap fun p => piggyOf cfg sid st p.1 (l.chks.get? p.1)
 
 def markChks (l : Local) (ks : List Id) : Local :=
   { l with chks := l.chks.mapVals fun k e => if k ∈ ks then e.setInSync true else e }
@@ -355,6 +367,12 @@ def syncService (cfg : Cfg) (f : Faults) (id : Id) (d : SvcDef) (tok : String) (
     | none => { s with ok := false }
     | some c' => { s with c := c', ok := false }
 
+/-- which check records survive `deleteService id`: all but the pending removals of checks bound
+    (locally) to that service -/
+def pruneKeep (id : Id) (_ : Id) : Ent ChkDef → Bool
+  | .ent d _ _ _ true => decide (d.sid ≠ id)
+  | _ => true
+
 /-- `deleteService`: on success the record is dropped together with the pending removals of the
     checks that are bound (locally) to the service -/
 def deleteService (f : Faults) (id : Id) (s : St) : St :=
@@ -366,10 +384,7 @@ def deleteService (f : Faults) (id : Id) (s : St) : St :=
     { s with
       l := { s.l with
              svcs := s.l.svcs.erase id
-             chks := s.l.chks.filter fun p =>
-               match p.2 with
-               | .ent d _ _ _ true => decide (d.sid ≠ id)
-               | _ => true }
+             chks := s.l.chks.filterVis (pruneKeep id) }
       c := s.c.deregSvc id }
   | .lost => { s with c := s.c.deregSvc id, ok := false }
 
